@@ -92,6 +92,16 @@ _STR_METHODS = {'startswith', 'endswith', 'find', 'upper', 'lower', 'strip', 'ti
 _NUM_DUNDERS = {'__trunc__', '__neg__', '__pos__', '__abs__', '__round__', '__floor__', '__ceil__', 'is_integer'}
 
 
+def _walk_no_defs(fn):
+    stack = list(ast.iter_child_nodes(fn))
+    while stack:
+        n = stack.pop()
+        yield n
+        if isinstance(n, (ast.FunctionDef, ast.AsyncFunctionDef, ast.Lambda, ast.ClassDef)):
+            continue
+        stack.extend(ast.iter_child_nodes(n))
+
+
 class Outcome:
     def __init__(self):
         self.events = []       # (label, args)
@@ -269,6 +279,12 @@ class Interp:
             vals = list(val)
             for tt, vv in zip(t.elts, vals):
                 self.store(tt, vv)
+        elif isinstance(t, ast.Subscript) and not isinstance(t.slice, ast.Slice):
+            base = self.ev(t.value)
+            if isinstance(base, (dict, list)):
+                base[self.ev(t.slice)] = val
+            else:
+                raise Unmodelled(f'subscript store on {base!r}')
         else:
             raise Unmodelled(f'store target {type(t).__name__}')
 
@@ -277,6 +293,9 @@ class Interp:
         if isinstance(v, (Opaque, Ref)):
             raise Unmodelled(f'truth value of symbolic {v!r}')
         if isinstance(v, Rec):
+            # abstract value instance with a known payload: truth of the payload (ExcelType.__bool__)
+            if v.f.get('truthy') is not None:
+                return bool(v.f['truthy'])
             return True
         return bool(v)
 
@@ -420,6 +439,12 @@ class Interp:
             return outd
         if isinstance(n, ast.Lambda):
             return Opaque('lambda')
+        if isinstance(n, ast.Yield) and hasattr(self, '_yielded'):
+            self._yielded.append(self.ev(n.value) if n.value is not None else None)
+            return None
+        if isinstance(n, ast.YieldFrom) and hasattr(self, '_yielded'):
+            self._yielded.extend(list(self.ev(n.value)))
+            return None
         if isinstance(n, ast.Call):
             return self.call(n)
         raise Unmodelled(f'expression {type(n).__name__}: {ast.unparse(n)[:60]}')
@@ -438,8 +463,24 @@ class Interp:
                 args = tuple(self._safe_ev(a) for a in n.args)
                 self.out.events.append((label, args))
                 return Opaque(label)
-        args = [self.ev(a) for a in n.args]
-        kwargs = {k.arg: self.ev(k.value) for k in n.keywords}
+        args = []
+        for a in n.args:
+            if isinstance(a, ast.Starred):
+                seq = self.ev(a.value)
+                if isinstance(seq, (Opaque, Ref, Rec)):
+                    raise Unmodelled('starred argument of a symbolic sequence')
+                args.extend(list(seq))
+            else:
+                args.append(self.ev(a))
+        kwargs = {}
+        for k in n.keywords:
+            if k.arg is None:
+                mp = self.ev(k.value)
+                if not isinstance(mp, dict):
+                    raise Unmodelled('** of a symbolic mapping')
+                kwargs.update(mp)
+            else:
+                kwargs[k.arg] = self.ev(k.value)
         if isinstance(fn, ast.Attribute):
             recv = self._safe_ev(fn.value)
             if isinstance(recv, PyModel) and hasattr(recv, fn.attr):
@@ -546,6 +587,8 @@ class Interp:
                 return self.isinstance_fn(args[0], refs)
             if fn.id == 'type':
                 raise Unmodelled('type() call')
+            if fn.id == 'bool' and len(args) == 1 and isinstance(args[0], (Rec, PyModel)):
+                return self.truth(args[0]) if isinstance(args[0], Rec) else bool(args[0])
             for a_ in args:
                 if isinstance(a_, (Opaque, Ref, Rec)):
                     return Opaque(fn.id)
@@ -567,13 +610,20 @@ class Interp:
         for p_, a in zip(params, args):
             env[p_] = a
         env.update(kwargs)
+        is_gen = any(isinstance(y, (ast.Yield, ast.YieldFrom)) for y in _walk_no_defs(fnode))
         sub = Interp(self.a, om, env, effect_receivers=self.effects if closure else (), isinstance_fn=self.isinstance_fn,
                      call_models=self.call_models, inline_pkg=self.inline_pkg, depth=self.depth + 1,
                      self_class=self.self_class, record_unknown=self.record_unknown, scope_fn=self.scope_fn)
+        if is_gen:
+            sub._yielded = []
         out = sub.run(fnode.body)
         self.out.events.extend(out.events)
         if out.end == 'raise':
             raise ExcRaised(out.value)
+        if is_gen:
+            # the generator is expanded eagerly: laziness *inside* it is not modelled
+            self.out.events.append(('<eager-generator>', ()))
+            return list(sub._yielded)
         return out.value if out.end == 'return' else None
 
     def _comp(self, gens, i, emit):
